@@ -22,7 +22,7 @@ from vf import Check, VERIF, REPO, CACHE, LEAN, file_hash, repo_sources, sh
 ck = Check("C18")
 PID = "C18"
 GENJ = os.path.join(LEAN, "MirVerif", "Gen", "C18_Inventory.json")
-TSAN_ENV = dict(os.environ, TSAN_OPTIONS="exitcode=0 history_size=7 halt_on_error=0 report_thread_leaks=0")
+TSAN_ENV = dict(os.environ, TSAN_OPTIONS="exitcode=0 history_size=7 halt_on_error=0 report_thread_leaks=0 handle_abort=1")
 
 
 def sig(o):
@@ -146,7 +146,8 @@ def parse_tsan(text):
         m = re.search(r"WARNING: ThreadSanitizer: ([^\n(]+)", blk)
         if not m:
             continue
-        rep = {"type": m.group(1).strip(), "accesses": [], "location": None, "global": None, "text": blk.strip()[:6000]}
+        rep = {"type": m.group(1).strip(), "accesses": [], "location": None, "global": None, "text": blk.strip()[:6000],
+               "complete": "SUMMARY: ThreadSanitizer" in blk}
         cur = None
         for line in blk.split("\n"):
             a = re.match(r"\s+((?:Previous )?(?:[Aa]tomic )?(?:[Ww]rite|[Rr]ead)) of size (\d+) at (0x[0-9a-f]+) by ([^:]+):", line)
@@ -154,7 +155,7 @@ def parse_tsan(text):
                 cur = {"op": a.group(1).lower(), "thread": a.group(4), "stack": []}
                 rep["accesses"].append(cur)
                 continue
-            f = re.match(r"\s+#\d+ (\S+) (\S+)", line)
+            f = re.search(r"(?:^|\s)#\d+ (\S+) (\S+)", line)   # stderr of other threads may be interleaved into a line
             if f and cur is not None:
                 cur["stack"].append((f.group(1), f.group(2)))
                 continue
@@ -168,6 +169,11 @@ def parse_tsan(text):
             elif re.match(r"\s+Location is (stack|TLS)", line):
                 rep["location"] = re.match(r"\s+Location is (\w+)", line).group(1)
         reps.append(rep)
+    # fatal signals (SEGV, ABRT with handle_abort=1): "ERROR: ThreadSanitizer: SEGV on unknown address ..." + stack
+    for m in re.finditer(r"ERROR: ThreadSanitizer: (\w+) on unknown address[^\n]*\n(?:==\d+==[^\n]*\n)*((?:[^\n]*#\d+ [^\n]*\n)+)", text):
+        stack = [(f.group(1), f.group(2)) for f in re.finditer(r"#\d+ (\S+) (\S+)", m.group(2))]
+        reps.append({"type": "deadly signal " + m.group(1), "accesses": [{"op": "signal", "thread": "?", "stack": stack}],
+                     "location": None, "global": None, "text": m.group(0)[:6000], "complete": True, "deadly": True})
     return reps
 
 
@@ -258,9 +264,48 @@ secondary = 0
 n_compared = 0
 combos = set()
 crashes, mismatches = [], []
-curr_func_live = any(o["file"].endswith("mir2c.c") and o["object"] in ("curr_func", "curr_temp") for o in written)
+# Downstream effects of the known mir2c finding.  mir2c keeps the function being translated in the statics
+# `curr_func` / `curr_temp`; when two threads translate concurrently a thread loads ANOTHER context's
+# function from the static and walks it (heap races, heap-use-after-free once that context is finished,
+# SEGV / assertion).  A report of any kind is attributed to the finding ONLY when
+#   (a) at least two threads executed MIR_module2c in that run (harness mir2c-mode 1 or 2, >= 2 threads), and
+#   (b) the accessing / faulting stack contains a frame of mir2c.c at a line that the regenerated inventory
+#       lists as a read or write site of one of these statics (statement, or its innermost enclosing loop:
+#       the loaded value is carried by locals through the iteration) -- i.e. the value flowing into the
+#       faulting callee came from the static;
+# and the static is still a live, listed known finding.  Everything else stays a violation.
+mir2c_objs = [o for o in written if (o["file"], o["object"]) in known_keys and o["file"].endswith("mir2c/mir2c.c")
+              and o["object"] in ("curr_func", "curr_temp")]
+mir2c_sites = [(sl[1], sl[2], sl[3], o["object"]) for o in mir2c_objs for sl in o.get("site_lines", [])]
+curr_func_live = bool(mir2c_objs)
+
+
+def frame_rel_line(where):
+    m = re.match(r"(.*?):(\d+)(?::\d+)?$", where)
+    if not m:
+        return None, 0
+    f = os.path.realpath(m.group(1))
+    rp = os.path.realpath(REPO)
+    return (f[len(rp) + 1:] if f.startswith(rp + os.sep) else None), int(m.group(2))
+
+
+def mir2c_downstream(rep, r):
+    """-> (object, frame) when rule (a)+(b) holds, else None"""
+    if not mir2c_sites or int(r["cfg"][5]) == 0 or int(r["cfg"][0]) < 2:
+        return None
+    for a in rep["accesses"]:
+        for fn, where in a["stack"]:
+            f, line = frame_rel_line(where)
+            for sf, lo, hi, obj in mir2c_sites:
+                if f == sf and lo <= line <= hi:
+                    return obj, f"{fn} {f}:{line}"
+    return None
+
+
+truncated = 0
 for r in runs:
     m2c = int(r["cfg"][5])
+    died = any(rp.get("deadly") for rp in r["tsan"])
     if r["done"] is None:
         crashes.append(r)
     for (tag, t, it), v in r["res"].items():
@@ -269,46 +314,45 @@ for r in runs:
             combos.add((v.get("kind"), v.get("iface"), v.get("opt"), r["cfg"][0]))
     for (t, it) in r["mismatch"]:
         mismatches.append({"cmd": r["cmd"], "thread": t, "iter": it, "seq": r["res"].get(("SEQ", t, it)),
-                           "thr": r["res"].get(("THR", t, it)), "m2c": m2c})
+                           "thr": r["res"].get(("THR", t, it)), "m2c": m2c, "nthreads": int(r["cfg"][0])})
     for rep in r["tsan"]:
         rep["cmd"] = r["cmd"]
-        all_fns = {fn for a in rep["accesses"] for fn, _ in a["stack"]}
-        if rep["type"] != "data race":
-            if m2c and "MIR_module2c" in all_fns and curr_func_live:
-                secondary += 1       # e.g. heap-use-after-free while walking another context's function
-                seen_dyn.setdefault(("mir2c/mir2c.c", "curr_func"), rep)
+        if rep.get("deadly"):
+            continue                 # judged with the crash below
+        if not rep["complete"] and died:
+            truncated += 1           # the process was killed while printing this report: nothing to judge here,
+            continue                 # the fatal signal's own stack is judged below
+        if rep["type"] != "data race" or rep["location"] != "global":
+            d = mir2c_downstream(rep, r)
+            if d:
+                secondary += 1
+                seen_dyn.setdefault(("mir2c/mir2c.c", "curr_func"), dict(rep, via=d))
                 continue
-            unexplained.append({"why": "not a data race report: " + rep["type"], "report": rep})
+            if rep["type"] != "data race":
+                unexplained.append({"why": "not a data race report: " + rep["type"] + " (no mir2c.c frame at a site of curr_func/curr_temp)", "report": rep})
+            else:
+                unexplained.append({"why": f"race on {rep['location'] or 'unknown'} memory (context-owned or unknown) "
+                                           f"not attributable to an inventory object", "report": rep})
             continue
         writers = [lib_frames(a["stack"]) for a in rep["accesses"] if "write" in a["op"]]
-        if rep["location"] == "global":
-            cands = find_obj(rep["global"])
-            if not cands:
-                unexplained.append({"why": f"race on global '{rep['global']}' which is not in the inventory", "report": rep})
-                continue
-            ok = None
-            for o in cands:
-                sites = {w["fn"] for w in o["writes"]}
-                esc = any(w["kind"].startswith(("addr-escape", "nonconst-arg", "other")) for w in o["writes"])
-                tops = [w[0] for w in writers if w]
-                if o["writes"] and (esc or not tops or all(tp in sites for tp in tops)):
-                    ok = o
-                    break
-            if ok is None:
-                unexplained.append({"why": f"race on '{rep['global']}': writing function(s) "
-                                           f"{[w[0] for w in writers if w]} are not among the inventory's write sites "
-                                           f"{[(o['object'], [w['fn'] for w in o['writes']]) for o in cands]}", "report": rep})
-                continue
-            seen_dyn.setdefault((ok["file"], ok["object"]), rep)
-        else:
-            if m2c and curr_func_live and ("MIR_module2c" in all_fns or r["done"] is None):
-                # thread walking another context's function through mir2c's curr_func (a report cut
-                # short by the abort that follows has no MIR_module2c frame)
-                secondary += 1
-                seen_dyn.setdefault(("mir2c/mir2c.c", "curr_func"), rep)
-                continue
-            unexplained.append({"why": f"race on {rep['location'] or 'unknown'} memory (context-owned or unknown) "
-                                       f"not attributable to an inventory object", "report": rep})
+        cands = find_obj(rep["global"])
+        if not cands:
+            unexplained.append({"why": f"race on global '{rep['global']}' which is not in the inventory", "report": rep})
+            continue
+        ok = None
+        for o in cands:
+            sites = {w["fn"] for w in o["writes"]}
+            esc = any(w["kind"].startswith(("addr-escape", "nonconst-arg", "other")) for w in o["writes"])
+            tops = [w[0] for w in writers if w]
+            if o["writes"] and (esc or not tops or all(tp in sites for tp in tops)):
+                ok = o
+                break
+        if ok is None:
+            unexplained.append({"why": f"race on '{rep['global']}': writing function(s) "
+                                       f"{[w[0] for w in writers if w]} are not among the inventory's write sites "
+                                       f"{[(o['object'], [w['fn'] for w in o['writes']]) for o in cands]}", "report": rep})
+            continue
+        seen_dyn.setdefault((ok["file"], ok["object"]), rep)
 
 # ---- static + dynamic verdict per written object
 dyn_confirmed = {}
@@ -355,8 +399,11 @@ for u in unexplained[:5]:
                  what="ThreadSanitizer report not explained by the inventory: " + u["why"],
                  signature="C18:unexplained-race:" + str(rep.get("global") or rep.get("location")))
 for m in mismatches:
-    if m["m2c"] and curr_func_live:
-        seen_dyn.setdefault(("mir2c/mir2c.c", "curr_func"), {"cmd": m["cmd"], "text": "result mismatch"})
+    diff = {k for k in set(m["seq"] or {}) | set(m["thr"] or {}) if (m["seq"] or {}).get(k) != (m["thr"] or {}).get(k)}
+    in_m2c = diff <= {"m2c", "err"} and ("err" not in diff or str((m["thr"] or {}).get("err", "")).endswith("@MIR_module2c"))
+    if m["m2c"] and m["nthreads"] >= 2 and curr_func_live and in_m2c:
+        # only the text produced by MIR_module2c (or an error raised inside it) differs, >= 2 threads ran it
+        seen_dyn.setdefault(("mir2c/mir2c.c", "curr_func"), {"cmd": m["cmd"], "text": "mir2c output differs: " + str(sorted(diff))})
         secondary += 1
         continue
     ck.violation({"stage": "tie", "input": {"harness_cmd": m["cmd"], "harness": m["cmd"].split(" ")[1:], "thread": m["thread"], "iter": m["iter"]},
@@ -365,8 +412,9 @@ for m in mismatches:
                  signature="C18:result-mismatch")
     break
 for c in crashes:
-    if int(c["cfg"][5]) != 0 and curr_func_live:
-        secondary += 1
+    dead = [rp for rp in c["tsan"] if rp.get("deadly")]
+    if dead and all(mir2c_downstream(rp, c) for rp in dead):
+        secondary += 1       # fatal signal whose stack passes through a site of mir2c's statics
         continue
     ck.violation({"stage": "tie", "input": {"harness_cmd": c["cmd"], "harness": c["cmd"].split(" ")[1:]}, "impl_output": c["stderr_tail"], "rc": c["rc"],
                   "how_to_rerun": c["cmd"]},
@@ -635,7 +683,7 @@ ck.cov.setdefault("distribution", {}).update({
     "tsan_reports_total": sum(len(r["tsan"]) for r in runs),
     "tsan_objects_seen": sorted(f"{k[0]}:{k[1]}" for k in seen_dyn),
     "tsan_secondary_mir2c": secondary,
-    "tsan_unexplained": len(unexplained),
+    "tsan_unexplained": len(unexplained), "tsan_truncated_by_fatal_signal": truncated,
     "inventory_objects": len(objs), "inventory_written": [f"{o['file']}:{o['object']}" for o in written],
     "inventory_status": {f"{k[0]}:{k[1]}": v for k, v in status.items()},
     "dynamically_confirmed": dyn_confirmed,
